@@ -14,7 +14,7 @@ def relay(ctx, new_rule, text, other_prop, other_fn, other_rule, **rule_kw):
             continue
         n += 1
         if o.status == "violated":
-            ctx.bad(new_rule, o.construct, o.what, o.detail, key_detail=o.key_detail, loc=o.loc)
+            ctx.bad(new_rule, o.construct, o.what, o.detail, key_detail=o.key_detail, loc=o.loc, pointed=getattr(o, "pointed", False))
         elif o.status == "proved":
             ctx.ok(new_rule, o.construct, o.what, o.detail, loc=o.loc)
         else:
